@@ -283,14 +283,21 @@ impl Janitor {
       return;
     }
     let cost_to_free = current_cost - context.capacity;
-    let (victims, cost_released) = context.cache_policy[shard_index].evict(cost_to_free);
+    // The policy's own cost records may be stale (a key removed, cleared or
+    // overwritten before its write event was drained): account for what is
+    // actually taken out of the map, not for what the policy remembers.
+    let (victims, _policy_cost) = context.cache_policy[shard_index].evict(cost_to_free);
     if victims.is_empty() {
       return;
     }
+    let mut cost_released = 0;
+    let mut removed_count = 0;
     {
       let mut guard = shard.map.write();
       for key in &victims {
         if let Some(removed) = guard.remove(key) {
+          cost_released += removed.cost();
+          removed_count += 1;
           if let Some(sender) = &context.notification_sender {
             let _ = sender.try_send((key.clone(), removed.value(), EvictionReason::Capacity));
           }
@@ -300,7 +307,7 @@ impl Janitor {
     context
       .metrics
       .evicted_by_capacity
-      .fetch_add(victims.len() as u64, Ordering::Relaxed);
+      .fetch_add(removed_count, Ordering::Relaxed);
     context
       .metrics
       .current_cost
